@@ -2,27 +2,40 @@ From Coq Require Import String.
 Require Import OV.Base.Bytes OV.Base.Py OV.Base.PyInt OV.Base.Str OV.Base.IO.
 Require Import OV.Base.C09_HL OV.Gen.C09_Excutils OV.Model.C09.
 From Coq Require Extraction ExtrOcamlBasic.
-From Coq Require Import List NArith ZArith.
+From Coq Require Import List NArith ZArith Bool.
 Import ListNotations.
 
 (* ---- harness tables (tools/props/C09_prog.py: CLASS_INFO, PREDS, PRED_NONE) *)
 Definition class_tab : list cls :=
-  [mkcls 0 true true; mkcls 1 false true; mkcls 2 true false; mkcls 3 false false; mkcls 4 true true; mkcls 5 true true].
-Definition cls_idx (z : Z) : cls := nth (Z.to_nat z) class_tab (mkcls 0 true true).
+  [mkcls 0 true true true; mkcls 1 false true true; mkcls 2 true false true; mkcls 3 false false true; mkcls 4 true true true;
+   mkcls 5 true true true;
+   (* classes whose instances are FALSE in a boolean context (__len__ -> 0 / __bool__ -> False) *)
+   mkcls 6 true true false; mkcls 7 false true false; mkcls 8 true false false; mkcls 9 false false false].
+Definition cls_idx (z : Z) : cls := nth (Z.to_nat z) class_tab (mkcls 0 true true true).
 Definition pred_tab : list (list N) :=
-  [[0;0;0;0;0;0]; [1;1;1;1;1;1]; [1;0;0;1;0;1]; [0;1;1;0;1;0]; [2;2;2;2;2;2]; [1;0;2;0;1;2]]%N.
+  [[0;0;0;0;0;0;0;0;0;0]; [1;1;1;1;1;1;1;1;1;1]; [1;0;0;1;0;1;1;0;1;0]; [0;1;1;0;1;0;0;1;0;1]; [2;2;2;2;2;2;2;2;2;2];
+   [1;0;2;0;1;2;0;1;2;1]]%N.
 Definition pred_none : list N := [0;1;0;1;2;0]%N.
 Definition verdict (n : N) : pverdict := match n with 0%N => PFalsy | 1%N => PTruthy | _ => PRaise end.
+(* frames between the filter and the predicate: decorator-made (1, 5), method (2, 3, 6) *)
 Definition use_frames (u : Z) : list frame :=
-  if Z.eqb u 1 then [FDeco] else if Z.leb 2 u then [FMeth] else [].
-Definition mkp (p : Z) (l : N) (u : Z) : predspec :=
+  if Z.eqb u 1 || Z.eqb u 5 then [FDeco] else if Z.eqb u 2 || Z.eqb u 3 || Z.eqb u 6 then [FMeth] else [].
+Definition base_pred (p : Z) (l : N) (u : Z) : predspec :=
   let row := nth (Z.to_nat p) pred_tab [] in
   let dn := verdict (nth (Z.to_nat p) pred_none 0%N) in
   mkpred (fun oc => match oc with
                     | None => dn
-                    | Some c => if N.ltb (cid c) 6 then verdict (nth (N.to_nat (cid c)) row 0%N) else dn
+                    | Some c => if N.ltb (cid c) 10 then verdict (nth (N.to_nat (cid c)) row 0%N) else dn
                     end)
          (cls_idx 0) (1000 + l)%N (use_frames u).
+(* how the filter object is built: 0-3 exception_filter(<function / decorated / method>); 4-6 the same wrapped a SECOND
+   time; 7 exception_filter(exception_filter(<callable instance without __name__>)); 8 exception_filter(<such an instance>) *)
+Definition mkp (p : Z) (l : N) (u : Z) : predspec :=
+  let b := base_pred p l u in
+  if Z.eqb u 4 || Z.eqb u 5 || Z.eqb u 6 then filt_pred (filt_init (CFilt (filt_init (CFun true b))))
+  else if Z.eqb u 7 then filt_pred (filt_init (CFilt (filt_init (CFun false b))))
+  else if Z.eqb u 8 then filt_pred (filt_init (CFun false b))
+  else filt_pred (filt_init (CFun true b)).
 
 (* ---- parser of the prefix token encoding of bodies *)
 Definition zb (z : Z) : bool := negb (Z.eqb z 0).
@@ -46,7 +59,7 @@ Fixpoint parse (fuel : nat) (has_orig : option nat) (t : list Z) : option (body 
     | 8%Z :: p :: l :: r => match parse f has_orig r with Some (b, r1) => Some (Filter (mkp p (Z.to_N l) 0) (Z.to_N l) b, r1) | None => None end
     | 9%Z :: p :: a :: l :: r =>
         let arg := if Z.eqb a 0 then ACur else if Z.eqb a 1 then ANew (cls_idx 0) (2000 + Z.to_N l)
-                   else if Z.eqb a 2 then ANone else if Z.eqb a 4 then AStored (cls_idx (Z.modulo l 6)) (2000 + Z.to_N l)
+                   else if Z.eqb a 2 then ANone else if Z.eqb a 4 then AStored (cls_idx (Z.modulo l 10)) (2000 + Z.to_N l)
                    else match has_orig with Some i => AObj i | None => ANone end in
         Some (FilterCall (mkp p (Z.to_N l) 0) arg (Z.to_N l), r)
     | 10%Z :: l :: r => match parse f has_orig r with Some (b, r1) => Some (WithCtx (Z.to_N l) b, r1) | None => None end
@@ -171,7 +184,7 @@ Definition run (args : list bytes) : bytes :=
     let bd := parse_body None (skipn 1 zs) in
     let '(_, st1, outb) := exec bd (sare_blank 0) st0 in
     let '(st2, out) := rpoe_exit (if Z.eqb rm 2 then Some (cls_idx 0) else if Z.eqb rm 3 then Some (cls_idx 2)
-                                  else if Z.leb 4 rm then Some (mkcls (101 + Z.to_N rm) true true) else None)
+                                  else if Z.leb 4 rm then Some (mkcls (101 + Z.to_N rm) true true true) else None)
                                  (FProg 2) st1 outb in
     report st2 out None (is_normal outb)
   else if is_op "cause" op then
@@ -181,7 +194,7 @@ Definition run (args : list bytes) : bytes :=
     let '(st1, given) := if Z.eqb g 0 then (st, None)
                          else if Z.eqb g 1 then let '(st1, i) := alloc (mkobj (cls_idx 0) [] (OSite 4000) None) st in (st1, Some (Some i))
                          else (st, Some None) in
-    let '(st2, out) := rwc (mkcls (103 + Z.to_N (z 0%nat)) false true) given (FProg 2) st1 in
+    let '(st2, out) := rwc (mkcls (103 + Z.to_N (z 0%nat)) false true true) given (FProg 2) st1 in
     report (if active then pop st2 else st2) out None false
     ++ lit " cause=" ++ out_obj st2 (match out with Raised i => ecause (heap st2 i) | Normal => None end)
     ++ lit "/" ++ out_obj st2 (match out with Raised i => rwc_dunder_cause st2 i | Normal => None end)
